@@ -1,7 +1,7 @@
 """C18 — Gaussian sampling uses a true square root of the covariance."""
-import inspect
 import json
 import random
+import sys
 from fractions import Fraction
 
 import torch
@@ -22,7 +22,7 @@ class Noise:
         self.pos = 0
 
     def __call__(self, *size, **kw):
-        caller = inspect.stack()[1].function
+        caller = sys._getframe(1).f_code.co_name
         if caller != "zero_mean_mvn_samples" or self.mode is None:
             return self.real(*size, **kw)
         if len(size) == 1 and isinstance(size[0], (tuple, list, torch.Size)):
@@ -119,7 +119,10 @@ def run(chk, only=None):
                                            SumBatchLinearOperator, ConstantDiagLinearOperator)
     chk.rule = ("catalogue of PSD operator instances (every class with a sampler path; depth-2 nestings) x batch shape x k x dtype x "
                 "settings (max_cholesky_size both sides, fast root on/off, ciq); the sampler's linear map is recovered exactly by "
-                "feeding one-hot noise through a patched torch.randn; non-trivial = covariance not 1x1 and not identity")
+                "feeding one-hot noise through a patched torch.randn; non-trivial = covariance not 1x1 and not identity; plus "
+                "(lzdef) Lanczos-side sampling from rank-deficient / mixed-rank batches (Dense, ConstantMul, Matmul; n in {12, 30}; both dtypes) and "
+                "(hist) every explicit method= of root_decomposition / root_inv_decomposition called on the same object before sampling "
+                "(default and small max_root_decomposition_size; every PSD catalogue class at n = 3, ConstantMul / Kronecker / Dense at n = 150)")
     chk.assumptions += ["a draw x = L z with z ~ N(0, I) has covariance L L^T (probability theory not modelled)",
                         "torch.randn is only used for the sampler's own noise inside zero_mean_mvn_samples frames",
                         "root_decomposition correctness is C06's property; here R R^T is compared with the dense covariance with the tolerance of the root method"]
@@ -169,13 +172,19 @@ def run(chk, only=None):
                         except Exception as e:  # sampling a PSD operator must not fail
                             chk.violation(cell + "/exception", f"{type(e).__name__}: {str(e)[:300]}",
                                           {"cell": cell, "seed": chk.seed, "tier": chk.tier})
+        # ---- detection-gap families: Lanczos-side rank-deficient batches, explicit-method histories (c18_gaps.py)
+        from . import c18_gaps
+        if not only or only.startswith("C18/lzdef/"):
+            c18_gaps.lzdef_cases(chk, noise, settings, only, lines, expect, mat_line)
+        if not only or only.startswith("C18/hist/"):
+            c18_gaps.hist_cases(chk, noise, settings, only, extra_instances)
     finally:
         torch.randn = noise.real
     outs = chk.run_driver("C18", lines)
     if outs is not None:
         for o, (cell, want, tol) in zip(outs, expect):
-            if o == "bad-op":
-                chk.corr_break(cell + "/layout", "driver rejected the case", {"cell": cell})
+            if o in ("bad-op", "none"):
+                chk.corr_break(cell + "/layout", f"driver answered {o}", {"cell": cell})
                 continue
             got = torch.tensor(parse_mat(o), dtype=torch.float64)
             if close(got, want, tol):
@@ -266,12 +275,29 @@ def one_case(chk, noise, it, dtype, batch, k, cname, cfg, cell, lines, expect, s
             chk.violation(cell + "/covariance", f"L L^T differs from the covariance: max err {(cov - want).abs().max():.3e} (tol {tol})",
                           {"cell": cell, "seed": chk.seed, "tier": chk.tier})
             return
+        members = int(torch.Size(batch).numel()) if batch else 1
+        # ---- CIQ: the sampler is sum_q w_q K (s_q I - K)^-1 z (Lean: ciq_linear / ciq_cov); recorded quadrature
+        from linear_operator.operators import LinearOperator
+        if cname == "ciq" and not f32 and n > 1 and type(op).zero_mean_mvn_samples is LinearOperator.zero_mean_mvn_samples:
+            ciq_tie(chk, noise, op, A, L, k, batch, n, members, cell, lines, expect)
+        # ---- Kronecker root above max_cholesky_size: Kronecker product of the factor roots (Lean: kronFlat / kron_cov)
+        if cname == "lanczos" and not f32 and type(op).__name__ == "KroneckerProductLinearOperator":
+            root = op.root_decomposition().root
+            fs = getattr(root, "linear_ops", None)
+            if fs is not None and len(fs) == 2:
+                R1, R2, Rd = fs[0].to_dense(), fs[1].to_dense(), root.to_dense()
+                for mi in range(members):
+                    r1, r2 = R1.reshape(members, *R1.shape[-2:])[mi], R2.reshape(members, *R2.shape[-2:])[mi]
+                    lines.append(f"kron {r1.shape[0]} {r1.shape[1]} {r2.shape[0]} {r2.shape[1]} {mat_line(r1)} {mat_line(r2)}")
+                    expect.append((cell, Rd.reshape(members, *Rd.shape[-2:])[mi].double(), 1e-12))
+                chk.count("tie:kron")
+            else:
+                chk.corr_break(cell + "/layout", f"Kronecker root above max_cholesky_size is a {type(root).__name__}, model expects a Kronecker product of 2 factor roots", {"cell": cell})
         # ---- layout correspondence with the Lean model (unbatched members), same noise stream
         if cname != "default" or f32:
             return
         stream = lambda p: float(((p * 7 + 3) % 5) - 2)
         tolm = 1e-9
-        members = int(torch.Size(batch).numel()) if batch else 1
 
         def base_draws(sub):
             noise.start("stream", stream)
@@ -322,6 +348,18 @@ def one_case(chk, noise, it, dtype, batch, k, cname, cfg, cell, lines, expect, s
             R = op.root_decomposition().root.to_dense()
             m = R.shape[-1]
             if calls[0][0] == (*batch, m, k):
+                csv = lambda t: ",".join(str(int(v)) for v in t) if len(t) else "-"
+                lines.append(f"shape {csv(tuple(R.shape[:-2]))} {csv(batch)} {n} {m} {calls[0][0][-2]} {k}")
+                expect.append((cell, torch.tensor([[float(v) for v in x.shape]], dtype=torch.float64), 0.0))
+                if type(op).__name__ == "ConstantMulLinearOperator" and bool(torch.all(op._constant >= 0)):
+                    Rb = op.base_linear_op.root_decomposition().root.to_dense()
+                    if Rb.shape[-2:] == (n, m):
+                        Rb_m = Rb.expand(*batch, n, m).reshape(members, n, m)
+                        sc = (op._constant ** 0.5).expand(batch).reshape(members)
+                        for mi in range(members):
+                            lines.append(f"constMulRoot {n} {m} {_f(sc[mi])} {mat_line(Rb_m[mi])}")
+                            expect.append((cell, R.reshape(members, n, m)[mi].double(), 1e-12))
+                        chk.count("tie:constMulRoot")
                 R_m = R.reshape(members, n, m)
                 z = calls[0][1].reshape(members, m, k)
                 x_m = x.reshape(k, members, n)
@@ -333,6 +371,66 @@ def one_case(chk, noise, it, dtype, batch, k, cname, cfg, cell, lines, expect, s
                                {"cell": cell})
 
 
+def ciq_tie(chk, noise, op, A, L, k, batch, n, members, cell, lines, expect):
+    """Records what contour_integral_quad hands to the sampler (solves, weights, shifts) and ties
+    (1) the final reduction to the Lean model `ciq` (same noise stream), and
+    (2) the recovered linear map L to the quadrature operator sum_q w_q K (s_q I - K)^-1 built densely from the
+        recorded weights / shifts (the object of theorem ciq_cov)."""
+    import importlib
+    cq = importlib.import_module("linear_operator.utils.contour_integral_quad")  # (the package re-exports the function under the same name)
+    real, rec, depth = cq.contour_integral_quad, [], [0]
+
+    def spy(*a, **kw):
+        depth[0] += 1
+        try:
+            res = real(*a, **kw)
+        finally:
+            depth[0] -= 1
+        if depth[0] == 0:
+            rec.append(res)
+        return res
+
+    cq.contour_integral_quad = spy
+    try:
+        noise.start("stream", lambda p: float(((p * 7 + 3) % 5) - 2))
+        x = op.zero_mean_mvn_samples(k)
+        noise.stop()
+    finally:
+        cq.contour_integral_quad = real
+    if len(rec) != 1:
+        chk.corr_break(cell + "/layout", f"CIQ sampler called contour_integral_quad {len(rec)} times", {"cell": cell})
+        return
+    solves, weights, _, shifts = rec[0]
+    Q = weights.shape[0]
+    # weights / shifts are computed per output batch member (k, *batch): identical along the sample dimension
+    if tuple(weights.shape) == (Q, k, *batch, 1, 1) and bool((weights == weights[:, :1]).all()):
+        weights = weights[:, 0]
+    if tuple(shifts.shape) == (Q + 1, k, *batch) and bool((shifts == shifts[:, :1]).all()):
+        shifts = shifts[:, 0]
+    if tuple(solves.shape) != (Q, k, *batch, n, 1) or weights.numel() != Q * members:
+        chk.corr_break(cell + "/layout", f"CIQ solves {tuple(solves.shape)} weights {tuple(weights.shape)}: model expects {(Q, k, *batch, n, 1)}", {"cell": cell})
+        return
+    sol_m = solves.reshape(Q, k, members, n)
+    w_m = weights.reshape(Q, members)
+    x_m = x.reshape(k, members, n)
+    for mi in range(members):
+        rows = torch.cat([sol_m[q, :, mi] for q in range(Q)], 0)  # (Q*k, n), q-major
+        lines.append(f"ciq {Q} {n} {k} {','.join(_f(v) for v in w_m[:, mi].tolist())} {mat_line(rows)}")
+        expect.append((cell, x_m[:, mi].double(), 1e-9))
+    chk.count("tie:ciq")
+    # (2) the quadrature operator from the recorded rule
+    if tuple(shifts.shape) == (Q + 1, *batch):
+        s_m = shifts.reshape(Q + 1, members)[1:].double()
+        A_m = A.reshape(members, n, n)
+        eye = torch.eye(n, dtype=torch.float64)
+        Rs = [sum(w_m[q, mi].double() * (A_m[mi] @ torch.linalg.inv(s_m[q, mi] * eye - A_m[mi])) for q in range(Q)) for mi in range(members)]
+        Rq = torch.block_diag(*Rs)
+        if L.shape == Rq.shape and not close(L, Rq, 1e-4):
+            chk.corr_break(cell + "/quadrature-operator", f"recovered map differs from sum_q w_q K (s_q I - K)^-1: max err {(L - Rq).abs().max():.2e}", {"cell": cell})
+        else:
+            chk.traces_validated += 1
+
+
 def replay(chk, payload):
     p = payload.get("payload") or {}
     cell = p.get("cell")
@@ -341,4 +439,6 @@ def replay(chk, payload):
         return run(chk)
     chk.rng = random.Random(f"C18:{p.get('seed', 0)}")
     chk.tier = p.get("tier", chk.tier)
+    if cell.startswith(("C18/lzdef/", "C18/hist/")):
+        return run(chk, only=cell)  # per-cell random streams: the payload cell re-creates exactly that input
     run(chk, only=cell.split("/")[0] + "/" + "/".join(cell.split("/")[1:3]))
